@@ -33,8 +33,21 @@ def isSpurious : Act → Bool
   | .cas _ _ _ _ _ e _ ok obs => !ok && e == obs
   | _ => false
 
+/-- plain (non-atomic) steps leave no trace line: they are taken right before the same thread's next traced action
+(and for everybody when the run is over) -/
+def advancePlain (s : Dep.State) (x : Dep.Actor) : Nat → Dep.State
+  | 0 => s
+  | n + 1 =>
+    match Dep.step s x false with
+    | some (s', l) => if l = Dep.plainAct then advancePlain s' x n else s
+    | none => s
+
+def flushPlain (s : Dep.State) : Dep.State :=
+  [Dep.Actor.A, .C, .T].foldl (fun s x => advancePlain s x 4) s
+
 def depTry (s : Dep.State) (xs : List Dep.Actor) (a : Act) : Option Dep.State :=
   xs.findSome? (fun x =>
+    let s := advancePlain s x 4
     match Dep.step s x (isSpurious a) with
     | some (s', l) => if l = a then some s' else none
     | none => none)
@@ -61,6 +74,8 @@ def depObs (r : DepR) (o : Obs) : Except String DepR :=
         | some s' => do let s' ← depCheck s'; pure { r with s := some s' }
         | none => .error s!"the source vertex runs in thread {t} (dependency ready = {tok != "-"}) but no actor of that thread made it runnable with that `_ready`; model state {reprStr s}"
       | .ev ["waited"] =>
+        let s := flushPlain s
+        if !Dep.good s then .error s!"the model left the set of good states: {reprStr s}" else
         if (s.a == .idle || s.a == .done) && (s.c == .idle || s.c == .done) && (s.t == .idle || s.t == .done) then .ok r
         else .error s!"run finished but the model still has an actor in the middle of its protocol: {reprStr s}"
       | .ev _ | .spawn _ | .join _ | .exit => .ok r
